@@ -13,7 +13,7 @@ Bodies  == {"valid", "notder", "trailing"}
 Realms  == {"default", "configured", "unknown"}
 \* what the same proxy served right before this request: nothing, a request for ANOTHER configured realm (which has a KDC
 \* of its own), a request for an unknown realm.  No action below reads it: a request is routed by its own content.
-After   == {"nothing", "other-realm", "unknown-realm"}
+After   == {"nothing", "other-realm", "unknown-realm", "many-unknown"}   \* many-unknown: dozens of requests for unknown realms
 Behaviours == {"reply", "partial", "close", "silent", "refuse"}
 \* size of the embedded Kerberos message: nothing, shorter than the 4-byte length prefix a datagram KDC
 \* request must exceed, exactly 4, fits a datagram, larger than a datagram, just under the 128 KiB limit.
